@@ -23,6 +23,35 @@ from .core import BSeg, CSeg, Opaque, SBool, SBytes, SEnum, SFloat, SInt, SObj, 
 
 LEMMAS = []
 CONTRACTS = []
+STANDINS = []
+
+
+class StandIn:
+    """A labelled stand-in for an obligation PyVC cannot encode: the check function is executed natively
+    on every case of `cases(tier)`.  Never counted as a discharged obligation; reported separately with
+    its kind ('enum-native' = native evaluation over an enumerated domain), bound and whether the
+    enumeration is exhaustive for the stated domain."""
+
+    def __init__(self, fn, prop, cases, kind, bound, exhaustive, name, family=None):
+        self.fn, self.prop, self.cases, self.kind, self.bound, self.exhaustive = fn, prop, cases, kind, bound, exhaustive
+        self.name = name or fn.__name__
+        self.family = family
+
+    def instances(self):
+        if not self.family:
+            return [("", {})]
+        fam = self.family() if callable(self.family) else self.family
+        return [(",".join(f"{k}={_lbl(v)}" for k, v in item.items()), item) for item in fam]
+
+
+def standin(prop, cases, kind="enum-native", bound="", exhaustive=False, name=None, family=None):
+    """cases(tier, **fixed) yields argument tuples for the decorated check function."""
+
+    def deco(fn):
+        STANDINS.append(StandIn(fn, prop, cases, kind, bound, exhaustive, name, family))
+        return fn
+
+    return deco
 
 
 class Lemma:
@@ -172,10 +201,32 @@ class Bytes(Spec):
         def conc(ev):
             ln = n if isinstance(n, int) else ev(n).as_long()
             ln = min(ln, 1 << 20)
-            bs = bytes(min(255, max(0, ev(f(z3.IntVal(i))).as_long())) for i in range(ln))
+            bs = _fun_bytes(ev, f, ln)
             return bytearray(bs) if mutable else bs
 
         return SBytes([CSeg(f, 0, n)], mutable), conc
+
+
+def _fun_bytes(ev, f, ln):
+    """Octets f(0..ln-1) under the model behind `ev` (function interpretation read once)."""
+    model = getattr(ev, "model", None)
+    if model is not None and ln > 64:
+        try:
+            fi = model[f]
+            if fi is not None and not isinstance(fi, z3.ExprRef):
+                table = {}
+                for k in range(fi.num_entries()):
+                    e = fi.entry(k)
+                    a, v = e.arg_value(0), e.value()
+                    if z3.is_int_value(a) and z3.is_int_value(v):
+                        table[a.as_long()] = v.as_long()
+                els = fi.else_value()
+                if z3.is_int_value(els):
+                    d = els.as_long()
+                    return bytes(min(255, max(0, table.get(i, d))) for i in range(ln))
+        except (z3.Z3Exception, AttributeError):
+            pass
+    return bytes(min(255, max(0, ev(f(z3.IntVal(i))).as_long())) for i in range(ln))
 
 
 class ByteTuple(Spec):
@@ -315,7 +366,8 @@ def ghost(name):
 def nondet(n):
     """Nondeterministic choice in range(n): every alternative is explored."""
     if _NATIVE_ORACLE:
-        return _NATIVE_ORACLE.pop(0) % n
+        v = _NATIVE_ORACLE.pop(0)
+        return v % n if isinstance(v, int) else 0
     return 0
 
 
@@ -374,6 +426,13 @@ def unstubbed(f):
 class _Unstubbed:
     def __init__(self, func):
         self.func = func
+
+
+def nondet_bytes(max_len=None):
+    """An arbitrary byte string (every value is explored symbolically; natively: replayed from the oracle)."""
+    if _NATIVE_ORACLE:
+        return _NATIVE_ORACLE.pop(0)
+    return b""
 
 
 def assume(cond):
@@ -445,6 +504,17 @@ def _register_helper_models():
     stdlib.MODELS[since_last] = m_since_last
     stdlib.MODELS[last_marker] = m_last_marker
     stdlib.MODELS[unstubbed] = lambda I, a, k: _Unstubbed(getattr(a[0], "__func__", a[0]))
+    def m_nondet_bytes(I, args, kwargs):
+        max_len = args[0] if args else kwargs.get("max_len")
+        f = I.path.fresh_fun("nondet_bytes")
+        n = I.path.fresh_int("nondet_bytes.len")
+        I.path.assume(n >= 0)
+        if max_len is not None:
+            I.path.assume(n <= max_len)
+        I.path.ghost.setdefault("__oracle__", []).append(lambda ev, f=f, n=n: _fun_bytes(ev, f, ev(n).as_long()))
+        return SBytes([CSeg(f, 0, n)], False)
+
+    stdlib.MODELS[nondet_bytes] = m_nondet_bytes
     stdlib.MODELS[ghost] = m_ghost
     stdlib.MODELS[nondet] = m_nondet
     stdlib.MODELS[assume] = m_assume
@@ -657,3 +727,94 @@ class LoopSpec:
             pass
         prove("loop-invariant-preserved", site, I.as_z3_bool(self._call(I, self.invariant, frame)))
         raise PathAbort()
+
+
+# ----------------------------------------------------------------------------- symbolic maps
+
+
+class SMap(SVal):
+    """A dict with an arbitrary (unbounded) set of keys: keys are objects identified by an integer
+    attribute (`key_attr`, e.g. an address's `raw`), values are ints or fixed-length byte strings.
+    Encoded as z3 arrays: dom: Int -> Bool, val: Int -> Int (or a two-argument function for bytes).
+    Supports d[k], d[k] = v, k in d, d.get(k[, default]); iteration is outside the subset."""
+
+    def __init__(self, key_cls, key_attr, dom, val, value_len, touched):
+        self.key_cls, self.key_attr, self.dom, self.val, self.value_len, self.touched = key_cls, key_attr, dom, val, value_len, touched
+
+    def key_int(self, I, k):
+        if isinstance(k, SObj) and issubclass(k.cls, self.key_cls):
+            ke = iexpr(k.fields[self.key_attr])
+        elif isinstance(k, self.key_cls):
+            ke = iexpr(getattr(k, self.key_attr))
+        else:
+            return None
+        self.touched.append(ke)
+        return ke
+
+    def has(self, I, k):
+        ke = self.key_int(I, k)
+        if ke is None:
+            return False
+        return z3.Select(self.dom, ke)
+
+    def value_at(self, I, ke):
+        if self.value_len is None:
+            return SInt(z3.Select(self.val, ke))
+        f = self.val
+
+        class _Row:
+            def __call__(self, i, _ke=ke):
+                return f(_ke, i)
+
+            def name(self):
+                return "row"
+
+        return SBytes([CSeg(_Row(), 0, self.value_len)], False)
+
+    def store(self, I, k, v):
+        ke = self.key_int(I, k)
+        if ke is None:
+            raise Unsupported("SMap store with a key of another class")
+        self.dom = z3.Store(self.dom, ke, z3.BoolVal(True))
+        if self.value_len is None:
+            self.val = z3.Store(self.val, ke, iexpr(v))
+        else:
+            raise Unsupported("store of byte values into an SMap")
+
+
+class MapOf(Spec):
+    """Any dict {key_cls(raw): value}: an unbounded table (values: Int() or Bytes(length=n))."""
+
+    def __init__(self, key_cls, key_attr="raw", value=None, value_len=None):
+        self.key_cls, self.key_attr, self.value_len = key_cls, key_attr, value_len
+
+    def make(self, path, name):
+        dom = z3.Array(path.fresh_name(name + ".dom"), z3.IntSort(), z3.BoolSort())
+        touched = []
+        if self.value_len is None:
+            val = z3.Array(path.fresh_name(name + ".val"), z3.IntSort(), z3.IntSort())
+        else:
+            val = z3.Function(path.fresh_name(name + ".val"), z3.IntSort(), z3.IntSort(), z3.IntSort())
+        m = SMap(self.key_cls, self.key_attr, dom, val, self.value_len, touched)
+        dom0, val0 = dom, val
+        key_cls, key_attr, vlen = self.key_cls, self.key_attr, self.value_len
+
+        def conc(ev):
+            out = {}
+            for ke in touched:
+                k = ev(ke)
+                if not z3.is_int_value(k):
+                    continue
+                k = k.as_long()
+                if z3.is_true(ev(z3.Select(dom0, z3.IntVal(k)))):
+                    if vlen is None:
+                        v = ev(z3.Select(val0, z3.IntVal(k))).as_long()
+                    else:
+                        v = bytes(min(255, max(0, ev(val0(z3.IntVal(k), z3.IntVal(i))).as_long())) for i in range(vlen))
+                    try:
+                        out[key_cls(k)] = v
+                    except Exception:  # noqa: BLE001
+                        pass
+            return out
+
+        return m, conc
